@@ -291,6 +291,20 @@ def run_impl(case):
         out["recomposed"] = {"fnr_ci": _pairs(np.asarray(want_fnr_band, dtype=float)), "fpr_ci": _pairs(np.asarray(want_fpr_band, dtype=float))}
     if case.get("record"):
         out["samples"] = [{"pos": C15._encl(x.pos), "neg": C15._encl(x.neg), "ep": int(x.nb_easy_pos), "en": int(x.nb_easy_neg)} for x in samples]
+    # the requested points are a set: listing them in another order gives the same supports and point estimates
+    # (done last: the extra calls advance the sampler / the global generator)
+    if func == "roc_with_ci" and any(kw[nm] is not None and len(kw[nm]) >= 2 for nm in ("fnr", "fpr", "thresholds")):
+        order_same = True
+        for how in ("sorted", "reversed"):
+            kw2 = dict(kw)
+            for nm in ("fnr", "fpr", "thresholds"):
+                if kw[nm] is not None:
+                    kw2[nm] = np.sort(kw[nm]) if how == "sorted" else np.sort(kw[nm])[::-1].copy()
+            c2 = roc_with_ci(s, x_axis=case["x_axis"], config=cfg, **kw2)
+            order_same = order_same and bool(np.array_equal(np.asarray(c2.thresholds, dtype=float), t)
+                                             and np.array_equal(np.asarray(c2.fnr, dtype=float), fnr)
+                                             and np.array_equal(np.asarray(c2.fpr, dtype=float), fpr))
+        out["order_same"] = order_same
     return out
 
 
@@ -451,6 +465,9 @@ def oracle(case, res):
         if r[nm] != r[nm + "_at"]:
             j = next(i for i in range(n) if r[nm][i] != r[nm + "_at"][i])
             fails.append((f"C16/rates-at-thresholds/{func}", f"curve.{nm}[{j}] = {r[nm][j]} but scores.{nm}(thresholds[{j}]) = {r[nm + '_at'][j]}"))
+    if r.get("order_same") is False:
+        fails.append((f"C16/support/listing-order/{func}", f"the supports / point estimates change when the requested points fnr={case['fnr']} fpr={case['fpr']} "
+                      f"thresholds={case['thresholds']} are listed in sorted or reversed order"))
     bands = {"fnr_ci": r["fnr_ci"], "fpr_ci": r["fpr_ci"]}
     if "recomposed" in r:
         for nm in ("fnr_ci", "fpr_ci"):
